@@ -10,7 +10,11 @@ Tie          (a) print_msg: the extracted length arithmetic predicts for each ob
              (c) the extracted, verified classifier is the oracle of the search.
 Search       harness/front/compiledrive.c (ASan+UBSan build, fork per input, alarm) over the
              sample corpus, token mutations, generated programs with injected faults, raw
-             bytes, long tokens, deep nesting, `use` graphs.  NOT a proof: termination and
+             bytes, long tokens, deep nesting, `use` graphs; forms (every expression form around a lambda
+             capturing an enclosing local / around an enum record, constructed and not: these carry the expected
+             verdict accept|reject -> keys accepted-ill-formed:*, rejected-well-formed:*), extern declarations
+             over records with every member kind, NEVER_PATH values with missing / non-directory / empty /
+             unenterable components first, in the middle, last (time-out oracle -> hang:never-path).  NOT a proof: termination and
              memory safety of the C front end are only observed on the inputs run.
 """
 LEVEL = "proof"
@@ -1096,6 +1100,123 @@ def sample_sources():
     return [(os.path.basename(p)[:-4], open(p, "rb").read()) for p in sorted(glob.glob(os.path.join(SAMPLE_DIR, "*.nev")))]
 
 
+# --- every expression form around a lambda that captures an enclosing local / around an enum record ---------------------
+CAP_DECLS = ("enum Shape { Dot, Circle { r : int; } }\nrecord Box { f(int) -> int; v : int; }\n"
+             "func apply(x : int, f(int) -> int) -> int { f(x) }\nfunc apply2(x : int, z : int, f(int) -> int) -> int { f(x + z) }\n"
+             "func area(scale : int, s : Shape) -> int { match s { Shape::Dot -> 0; Shape::Circle(r) -> 3 * r * scale; } }\n"
+             "func area1(s : Shape) -> int { area(1, s) }\n"
+             "func risky(d : int) -> int { 10 / d }\n")
+LAM = "let func (a : int) -> int { a + y }"
+# (position, expression of type int with @ = the planted expression, what @ must be: "lambda" (an (int)->int) or "shape" (a Shape))
+CAP_FORMS = [
+    ("pipe", "10 |> apply(@)", "lambda"), ("pipe-extra-argument", "10 |> apply2(2, @)", "lambda"), ("pipe-chain", "10 |> apply(@) |> apply(@)", "lambda"),
+    ("call-argument", "apply(3, @)", "lambda"), ("call-of-call", "apply(apply(1, @), @)", "lambda"),
+    ("record-literal", "{ let b = Box(@, 1); b.f(2) }", "lambda"), ("array-literal", "{ let fs = [ @, @ ] : (int) -> int; fs[1](4) }", "lambda"),
+    ("match-arm", "match Shape::Dot { Shape::Dot -> apply(1, @); Shape::Circle(r) -> r; }", "lambda"),
+    ("if-let", "if let (Shape::Circle(r) = Shape::Circle(2)) { apply(r, @) } else { 0 }", "lambda"),
+    ("for-in", "{ var t = 0; for (i in [ 1, 2, 3 ] : int) { t = t + apply(i, @) }; t }", "lambda"),
+    ("list-comprehension", "{ let a = [ apply(i, @) | i in [ 1, 2 ] : int ] : int; a[0] }", "lambda"),
+    ("conditional", "y > 2 ? apply(1, @) : 0", "lambda"), ("if-else", "if (y > 2) { apply(1, @) } else { 0 }", "lambda"),
+    ("while-body", "{ var i = 0; var t = 0; while (i < 2) { t = t + apply(i, @); i = i + 1 }; t }", "lambda"),
+    ("let-binding", "{ let g = @; g(1) }", "lambda"), ("nested-lambda", "{ let g = let func (b : int) -> int { apply(b, @) }; g(1) }", "lambda"),
+    ("immediately-called", "(@)(3)", "lambda"), ("binary-operand", "1 + apply(2, @) * 2", "lambda"),
+    ("pipe", "2 |> area(@)", "shape"), ("pipe-single", "@ |> area1()", "shape"), ("call-argument", "area(2, @)", "shape"),
+    ("let-binding", "{ let s = @; area(1, s) }", "shape"), ("match-scrutinee", "match @ { Shape::Dot -> 0; Shape::Circle(r) -> r; }", "shape"),
+    ("array-literal", "{ let a = [ @, Shape::Dot ] : Shape; area(1, a[0]) }", "shape"), ("conditional", "area(1, y > 2 ? @ : Shape::Dot)", "shape"),
+    ("if-let", "if let (Shape::Circle(r) = @) { r } else { 0 }", "shape"),
+    ("for-in", "{ var t = 0; for (i in [ 1, 2 ] : int) { t = t + area(i, @) }; t }", "shape"),
+    ("list-comprehension", "{ let a = [ area(i, @) | i in [ 1, 2 ] : int ] : int; a[0] }", "shape"),
+    ("nested-lambda", "{ let g = let func (b : int) -> int { area(b, @) }; g(1) }", "shape"),
+]
+def cap_program(expr, planted, catch=False):
+    body = expr.replace("@", planted)
+    if catch:
+        return CAP_DECLS + "func host(d : int) -> int { let y = 5; risky(d) } catch (division_by_zero) { let y = 6; %s }\nfunc main() -> int { host(0) }\n" % body
+    return CAP_DECLS + "func host(d : int) -> int { let y = 5; %s }\nfunc main() -> int { host(1) }\n" % body
+
+
+def capture_form_cases():
+    """-> [(name, source, expectation)]: well-typed programs in which every expression form (pipe, call arguments, record and
+    array literals, match arm, if-let, for-in, comprehension, conditional, loops, nested lambda; the same inside a catch
+    clause) holds a function literal that captures the local `y` of the enclosing function — must compile — and the same
+    positions holding an enum RECORD item: constructed (`Shape::Circle(2)`, must compile) and used without construction
+    (`Shape::Circle`, ill-formed: must be rejected with a diagnostic)."""
+    out = []
+    for pos, expr, kind in CAP_FORMS:
+        for catch in (False, True):
+            tag = "%s.%s%s" % (kind, pos, ".in-catch" if catch else "")
+            if kind == "lambda":
+                out.append(("capture." + tag, cap_program(expr, LAM, catch), "accept"))
+            else:
+                out.append(("enum-record-constructed." + tag, cap_program(expr, "Shape::Circle(2)", catch), "accept"))
+                out.append(("enum-record-not-constructed." + tag, cap_program(expr, "Shape::Circle", catch), "reject"))
+    return out
+
+
+# --- extern declarations over records with every member kind --------------------------------------------------------------
+FFI_MEMBER_KINDS = [("int", "m : int"), ("long", "m : long"), ("float", "m : float"), ("double", "m : double"), ("char", "m : char"),
+                    ("bool", "m : bool"), ("string", "m : string"), ("c_ptr", "m : c_ptr"), ("record", "m : Inner"),
+                    ("array", "m[D] : int"), ("array-2d", "m[D, E] : int"), ("array-of-strings", "m[D] : string"), ("enum", "m : Colour"),
+                    ("enum-record", "m : Opt"), ("function", "m(int) -> int"), ("slice", "m[..] : int"), ("range", "m[..]"),
+                    ("record-with-array", "m : WithArr"), ("record-with-enum", "m : WithEnum"), ("record-with-function", "m : WithFun"),
+                    ("self", "m : Outer")]
+FFI_DECLS = ("record Inner { a : int; b : double; }\nenum Colour { RED, GREEN }\nenum Opt { None, Some { v : int; } }\n"
+             "record WithArr { n : int; d[D] : int; }\nrecord WithEnum { c : Colour; }\nrecord WithFun { f(int) -> int; }\n")
+
+
+def ffi_record_cases():
+    """extern declarations whose record parameter / result has a member of every kind (supported or not, nested): a compile
+    that fails must say why"""
+    out = []
+    for kind, member in FFI_MEMBER_KINDS:
+        rec = "record Outer { x : int; %s; y : int; }\n" % member
+        shapes = [("parameter", "extern \"libc.so.6\" func abs(v : Outer) -> int\n"),
+                  ("result", "extern \"libc.so.6\" func abs(v : int) -> Outer\n"),
+                  ("second-parameter", "extern \"libc.so.6\" func abs(a : int, v : Outer, s : string) -> int\n"),
+                  ("parameter-and-called", "extern \"libc.so.6\" func abs(v : Outer) -> int\nfunc use_it(o : Outer) -> int { abs(o) }\n")]
+        for sname, ext in shapes:
+            out.append(("ffi-record.%s.%s" % (kind, sname), FFI_DECLS + rec + ext + "func main() -> int { 0 }\n"))
+        out.append(("ffi-direct.%s" % kind, FFI_DECLS + "extern \"libc.so.6\" func abs(%s) -> int\nfunc main() -> int { 0 }\n" % member))
+    return out
+
+
+# --- NEVER_PATH with components that cannot be entered --------------------------------------------------------------------
+def never_path_cases(root):
+    """(name, NEVER_PATH value, source): module directories root/pa, root/pb (module mb only in pb), a plain file root/afile,
+    a directory without search permission; missing / non-directory / empty / unreadable components first, in the middle, last"""
+    pa, pb = os.path.join(root, "pa"), os.path.join(root, "pb")
+    os.makedirs(pa, exist_ok=True)
+    os.makedirs(pb, exist_ok=True)
+    locked = os.path.join(root, "locked")
+    os.makedirs(locked, exist_ok=True)
+    with open(os.path.join(pa, "ma.nev"), "w") as f:
+        f.write("module ma { func one() -> int { 1 } }\n")
+    with open(os.path.join(pb, "mb.nev"), "w") as f:
+        f.write("use ma\nmodule mb { func two() -> int { ma.one() + 1 } }\n")
+    with open(os.path.join(pb, "ma.nev"), "w") as f:
+        f.write("module ma { func one() -> int { 10 } }\n")
+    with open(os.path.join(root, "afile"), "w") as f:
+        f.write("not a directory\n")
+    try:
+        os.chmod(locked, 0)
+    except OSError:
+        pass
+    missing = os.path.join(root, "no", "such", "dir")
+    bad = {"missing": missing, "file": os.path.join(root, "afile"), "empty": "", "unenterable": locked, "relative-missing": "nodir"}
+    srcs = {"use-found": "use mb\nfunc main() -> int { mb.two() }\n", "use-two": "use ma\nuse mb\nfunc main() -> int { ma.one() + mb.two() }\n",
+            "use-not-found": "use mzz\nfunc main() -> int { 0 }\n", "no-use": "func main() -> int { 0 }\n"}
+    out = []
+    for bname, b in bad.items():
+        paths = {"first": [b, pa, pb], "middle": [pa, b, pb], "last": [pa, pb, b], "only": [b], "twice-first": [b, b, pb, pa],
+                 "all-but-last": [b, b, pb]}
+        for pname, comps in paths.items():
+            for sname, src in srcs.items():
+                if sname == "no-use" and pname not in ("first", "only"):
+                    continue
+                out.append(("never-path.%s.%s.%s" % (bname, pname, sname), ":".join(comps), src))
+    return out
+
+
 def build_search_cases(ctx, rng, workdir, scale):
     """All input streams of the search; every random choice comes from rng (ctx.seed)."""
     cases = []
@@ -1209,6 +1330,14 @@ def build_search_cases(ctx, rng, workdir, scale):
         with open(os.path.join(root, nm + ".nev"), "wb") as f:
             f.write(txt.encode("latin-1"))
         cases.append(Case("U.odd.%s" % nm, "use:odd-module-file", ("use %s\nfunc main() -> int { 0 }\n" % nm).encode(), "str", root))
+    # (7) forms around a capturing lambda / an enum record; extern over records with every member kind; NEVER_PATH components
+    expect = {}
+    for nm, src, exp in capture_form_cases():
+        cases.append(Case("C." + nm, "forms:" + nm.split(".")[0], src.encode(), "str", None, {"expect": exp}))
+    for nm, src in ffi_record_cases():
+        cases.append(Case("X." + nm, "extern-record-members", src.encode(), "str", None))
+    for nm, pathval, src in never_path_cases(os.path.join(mods, "neverpath")):
+        cases.append(Case("P." + nm, "never-path", src.encode(), "str" if len(cases) % 2 else "file", pathval, {"NEVER_PATH": pathval}))
     os.makedirs(os.path.join(root, "adir.nev"), exist_ok=True)
     cases.append(Case("U.odd.directory", "use:odd-module-file", b"use adir\nfunc main() -> int { 0 }\n", "str", root))
     cases.append(Case("U.odd.slashes", "use:odd-module-file", b"use ../longname/emptymod\nuse ./nomodule\nuse /etc/passwd\nfunc main() -> int { 0 }\n", "str", root))
@@ -1504,6 +1633,15 @@ def _run(ctx, drv, pdrv, workdir, t0):
                 nontrivial += 1
         if o is not None and b"memory exhausted" in o.diag:
             memexh += 1
+        exp = c.meta.get("expect") if isinstance(c.meta, dict) else None
+        if exp and k in ("ok", "diagnosed") and o is not None and o.ret is not None:
+            # families that know what the compiler has to say: a well-formed program must compile, an ill-formed one must not
+            if exp == "reject" and o.ret == 0:
+                k, key, what = "violation", "accepted-ill-formed:%s" % c.cls.split(":", 1)[-1], \
+                    "an ill-formed program (%s) compiled with return code 0 and no diagnostic" % c.id
+            elif exp == "accept" and o.ret != 0:
+                k, key, what = "violation", "rejected-well-formed:%s" % c.cls.split(":", 1)[-1], \
+                    "a well-formed program (%s) was rejected: %s" % (c.id, (error_lines(o.diag) or [b""])[0].decode("latin-1")[:100])
         if k == "asan-stack":
             asan_stack.append((c, o, key, what))
         elif k in ("violation", "timeout"):
@@ -1520,7 +1658,8 @@ def _run(ctx, drv, pdrv, workdir, t0):
     # with a six times larger limit and keep only the ones that still do not finish
     slow = [k for k in findings if k and k.startswith("hang:")]
     if slow:
-        again = [c for k in slow for c, _, _ in findings[k]]
+        # a defect that hangs a whole family would cost (cases x 60 s): the six smallest inputs of each key represent it
+        again = [c for k in slow for c, _, _ in sorted(findings[k], key=lambda t: len(t[0].data))[:6]]
         obs2 = run_cases(drv, again, workdir, timeout=60 if not thorough else 120, nproc=4, tag="h")
         ver2 = classify(list(obs2.values()))
         n_slow = len(again)
